@@ -10,7 +10,7 @@ for PEP 695 forms, and `patches` says how to turn CPython's tree of `twin` into 
 Excluded from random output (documented stricter-than-CPython cases and known-finding shapes, each probed
 deterministically elsewhere): duplicate parameter names, repeated keyword arguments, tab after space in
 indentation; identifiers that are not NFKC-stable; a logical line starting with the NAME `match`/`case`
-that has a later top-level colon; `<number>.<keyword>`; parenthesised AnnAssign name target; `x[*a]`;
+that has a later top-level colon; `<number>.<keyword>`; `x[*a]`;
 `match x,:`; triple-quoted strings inside f-string fields; (opt `no_pep695_after_semi`) type alias not at
 line start.
 """
@@ -238,7 +238,11 @@ class Gen:
                 k = self.r.random()
                 if k < 0.4:
                     lit = self.ch(["a", "abc ", " = ", "{{", "}}", "é", "😀", "x: ", "100%", "#", "\\n" if not raw else "\\d", "it",
-                                   "\\x41" if not raw else "\\", ":", "!", "\\N{BULLET}" if not raw else "N"])
+                                   "\\x41" if not raw else "\\", ":", "!", "\\N{BULLET}" if not raw else "N",
+                                   # every escape family changes how many source bytes one decoded character takes
+                                   "\\033" if not raw else "\\0", "\\7" if not raw else "7", "\\101é" if not raw else "é",
+                                   "\\u00e9" if not raw else "u", "\\U0001F600" if not raw else "U", "\\\\" if not raw else "\\\\",
+                                   "\\'" if (not raw and q[0] != "'") else "q", "\\12\\0"  if not raw else "0"])
                     if lit == "\\" and raw:
                         lit = "\\ "
                     if self.infs > 1 and "\\" in lit:
@@ -836,7 +840,9 @@ class Gen:
         if r < 0.43:
             t = self.target(d, paren_ok=False)
             if t.startswith("("):
-                t = self.name()     # CPython: "illegal target for annotation" (and `(x): T` is a known finding)
+                t = self.name()     # CPython: "illegal target for annotation"
+            if t.isidentifier() and self.p(0.12):
+                t = "(" + self.O() + t + self.O() + ")"     # `(x): T`: a parenthesised name, never `simple`
             s = t + self.O() + ":" + self.O() + self.expr(d, 1)
             if self.p(0.6):
                 s += " = " + self.ch([self.exprlist(d, star=True), "yield " + self.expr(d, 1)])
